@@ -24,20 +24,21 @@ func (p *PemReader) Read(byteData []byte) (int, error) {
 }
 
 func (p *PemReader) readNextBase64Line(byteData []byte) (int, error) {
-	readString, err := p.Reader.ReadString('\n')
-	if err != nil {
-		return 0, err
-	}
-	matchString := pemPaddingRegEx.MatchString(readString)
-	if matchString {
-		return p.readNextBase64Line(byteData)
-	} else {
+	//iterate (instead of recursing) over armour lines so the stack does not grow with the number of such lines
+	for {
+		readString, err := p.Reader.ReadString('\n')
+		if err != nil {
+			return 0, err
+		}
+		matchString := pemPaddingRegEx.MatchString(readString)
+		if matchString {
+			continue
+		}
 		if len(readString) > pemMaxLineLength {
 			return 0, fmt.Errorf("line was longer than 64 characters %s", readString)
-		} else {
-			i := copy(byteData, readString)
-			return i, nil
 		}
+		i := copy(byteData, readString)
+		return i, nil
 	}
 }
 
